@@ -5,6 +5,7 @@ from harness import core, pipe, pipecheck, pipeprops
 from harness.core import Failure, Result
 
 MANIFEST = dict(
+    pending="check runs (model lock-step + oracle) but its Coq theorems are still being proved; not claimed until coq/Props holds them",
     design_ref="DESIGN.md §6 C01",
     text="Executable Coq model of the whole pipeline (kernel inotify semantics, Inotify.read_events, InotifyBuffer over "
          "the proved delay-queue LTS, InotifyEmitter.queue_events) run in lock-step against the real observer on the real "
